@@ -9,7 +9,11 @@ def same : P String := do
   let a ← P.xs; let b ← P.xs; P.eof
   match Hidden.firstDiff a b 0 with
   | none => return (if a.length ≤ 1 then "ok trivial" else s!"ok {scen}")
-  | some i => return s!"fail {subj} {scen} first_difference_at={i} a={a.getD i .nan} b={b.getD i .nan} lens={a.length},{b.length}"
+  | some i =>
+    -- the clause failed either way; the kind says whether the two runs agree up to a few units in the last place (same
+    -- discrete results, rounding differs) or really differ, so that a recorded last-bits finding cannot absorb a real one
+    let scen := if Hidden.lastBitsOnly a b then scen ++ "_last_bits_only" else scen
+    return s!"fail {subj} {scen} first_difference_at={i} a={a.getD i .nan} b={b.getD i .nan} lens={a.length},{b.length}"
 
 /-- `differ <subject> <scenario> | n a… n b…` : two engine-driven streams that must not coincide -/
 def differ : P String := do
